@@ -11,6 +11,7 @@ FileB   == E("file", 416, <<"b">>, "150k+1")                    \* b
 FileC   == E("file", 292, <<".", "c">>, "0")                    \* ./c
 FileCs  == E("file", 292, <<"c", "">>, "1")                     \* c/   (regular entry spelled with a trailing slash)
 FileBig == E("file", 420, <<"big">>, "4m")
+FileAbX == E("file", 416, <<"ab", "x">>, "1")                   \* ab/x: an implicit directory whose name has "a" as a string prefix
 DirRoot == E("dir", 457, <<".", "">>, "0")                      \* ./
 DirD    == E("dir", 453, <<"", "..", "d", "">>, "0")            \* /../d/  (stays inside: Clean of a rooted path)
 EscX    == E("file", 420, <<"..", "x">>, "1")                   \* ../x
@@ -18,7 +19,7 @@ EscDeep == E("dir", 493, <<"a", "..", "..", "x", "">>, "0")     \* a/../../x/
 EscSelf == E("dir", 493, <<"..">>, "0")                         \* ..
 EscFile == E("file", 420, <<"d", "..", "..">>, "1")             \* d/../..  (regular entry resolving to "..")
 
-ReqQuick    == {DirA, DirAB, FileAF, FileABG, FileAH, FileB, FileC, DirRoot, DirD, EscX, EscDeep, EscSelf}
+ReqQuick    == {DirA, DirAB, FileAF, FileABG, FileAH, FileB, FileC, DirRoot, DirD, EscX, EscDeep, EscSelf, FileAbX}
 FileAFs == E("file", 420, <<"a", "f">>, "1")
 ReqSched    == {DirA, DirAB, FileAF, DirD}
 ReqFour     == {DirA, DirAB, FileAF, FileABG, FileC, DirRoot, EscX, FileB}
